@@ -17,7 +17,8 @@ PROP = 'C17'
 RULE = ('capital 1..1e7, price 1e-6..1e6 (log-uniform, decimal grids, near-integer quotients found with nextafter), fee {0, 1e-4..0.01}, '
         'precision 0..8, risk 0.1..100 %, entry/stop pairs; decimal pairs i/10^k, j/10^k with k <= 8; every timeframe and all subsets '
         'up to size 4. distinct = distinct (function, precision, fee class, magnitude bucket); non-trivial = every case.')
-ASSUMPTIONS = ['"at most one step below" allows 4 ulp of the result on top of the step (the step can be smaller than the float spacing)',
+ASSUMPTIONS = ['round_qty_for_live_mode: "never rounds up" is judged beyond 2 ulp of the input (x * 10**p is itself rounded to a float)',
+               '"at most one step below" allows 4 ulp of the result on top of the step (the step can be smaller than the float spacing)',
                'cost and risk bounds are judged in exact rationals of the float inputs with a relative slack of 1e-12 (decimal '
                'literals are not binary fractions); the acceptance test through a fresh account is judged without slack',
                '"exact quotient" of size_to_qty = position_size * (1 - 3 fee) / price (the fee cushion the helper documents)']
@@ -122,7 +123,7 @@ def _pure(job):
                 if r != unit:
                     bad('round_qty_min_unit', f'round_qty_for_live_mode({x!r}, {p}) = {r!r}, expected the minimum unit {unit}', x=x, p=p)
             else:
-                if r > x:
+                if r > x + 2 * math.ulp(x):
                     bad('round_qty_rounds_up', f'round_qty_for_live_mode({x!r}, {p}) = {r!r} > input', x=x, p=p)
                 if F(r) <= F(x) - F(1, 10 ** p) - 4 * F(math.ulp(x)):
                     bad('round_qty_more_than_one_unit_down', f'round_qty_for_live_mode({x!r}, {p}) = {r!r}', x=x, p=p)
